@@ -29,6 +29,8 @@ type C03Scenario struct {
 	Legacy bool      `json:"legacy,omitempty"`
 	Post   []Op      `json:"post"`
 	Torn   []uint16  `json:"torn"`
+	Faults   []FaultSpec `json:"faults"`    // single-fault plans for the fault facet
+	FaultAll bool        `json:"fault_all"` // every single fault at every faultable operation
 }
 
 var c03Entries = []string{"inline-write", "close", "load-selfheal", "force", "compactor-compact", "compactor-force", "compactor-ifneeded", "from-index", "cli"}
@@ -70,6 +72,15 @@ func genC03(forceStale bool) func(t *rapid.T) C03Scenario {
 		pc := genCfg{maxOps: 3, maxData: 50}
 		s.Post = genOps(t, pc, len(s.Keys), 64)
 		s.Torn = rapid.SliceOfN(rapid.Uint16(), 2, 2).Draw(t, "torn")
+		nf := rapid.IntRange(1, 3).Draw(t, "nfaults")
+		for i := 0; i < nf; i++ {
+			f := FaultSpec{Pos: rapid.Uint16().Draw(t, "fpos")}
+			if rapid.Bool().Draw(t, "fshort") {
+				f.Short = 1 + rapid.Uint16Max(2000).Draw(t, "fshortn")
+			}
+			s.Faults = append(s.Faults, f)
+		}
+		s.FaultAll = pbt.GetEnv().Tier == "thorough" && rapid.IntRange(0, 3).Draw(t, "faultall") == 0
 		return s
 	}
 }
@@ -192,37 +203,9 @@ func runC03(s C03Scenario) pbt.Outcome {
 		expectedAtEntry = expected
 		sizeBefore := fileSize(file)
 		startVfs()
-		switch s.Entry {
-		case "load-selfheal":
-			got, c2 := loadAll(dir, s.Cfg)
-			c2.Close()
-			if !sameState(got, expected) {
-				stopVfs()
-				return pbt.Failf("mismatch", "Load (self-heal path) returned %d keys, want %d", len(got), len(expected))
-			}
-		case "force":
-			c2 := newChron(dir, s.Cfg)
-			if err := c2.ForceCompaction(); err != nil {
-				pbt.Counter("C03", "entry_returned_error", 1)
-			}
-			c2.Close()
-		case "compactor-compact":
-			v2.NewCompactor(file, s.Cfg.BlockSize, s.Cfg.Threshold).Compact()
-		case "compactor-force":
-			v2.NewCompactor(file, s.Cfg.BlockSize, s.Cfg.Threshold).ForceCompact()
-		case "compactor-ifneeded":
-			v2.NewCompactor(file, s.Cfg.BlockSize, s.Cfg.Threshold).CompactIfNeeded()
-		case "from-index":
-			r, err := v2.NewFileReader(file)
-			if err == nil {
-				idx, nm, err2 := r.LoadIndex()
-				r.Close()
-				if err2 == nil {
-					v2.CompactFromIndex(file, s.Cfg.BlockSize, nm, idx, len(entries))
-				}
-			}
-		case "cli":
-			hcmd.VerifCompactSwamp(file, s.Cfg.Threshold, false)
+		if f := runEntry(dir, s, expected, len(entries)); f != nil {
+			stopVfs()
+			return *f
 		}
 		stopVfs()
 		compactedHint = fileSize(file) < sizeBefore
@@ -391,6 +374,105 @@ func runC03(s C03Scenario) pbt.Outcome {
 			im.Apply(op, -1)
 		}
 	}
+	// 5. fault facet: the same entry point re-run on the pre-compaction image with ONE injected I/O fault
+	// (operation fails, or a write stores a prefix and fails). Whatever the entry point reports, the swamp must
+	// afterwards hold exactly the pre-compaction state (complete old or complete new file) and accept writes.
+	faultRuns := 0
+	if before != nil && len(ops) > 0 {
+		var fidx []int
+		for i, o := range ops {
+			if faultable(o) {
+				fidx = append(fidx, i)
+			}
+		}
+		var plans []map[int]vfs.Fault
+		if s.FaultAll {
+			for _, i := range fidx {
+				plans = append(plans, map[int]vfs.Fault{i: {}})
+				if ops[i].Kind == "write" && len(ops[i].Data) > 1 {
+					plans = append(plans, map[int]vfs.Fault{i: {Short: len(ops[i].Data) / 2}})
+				}
+			}
+		} else if len(fidx) > 0 {
+			for _, f := range s.Faults {
+				i := fidx[int(f.Pos)%len(fidx)]
+				flt := vfs.Fault{}
+				if f.Short > 0 && ops[i].Kind == "write" && len(ops[i].Data) > 1 {
+					flt.Short = 1 + int(f.Short)%(len(ops[i].Data)-1)
+				}
+				plans = append(plans, map[int]vfs.Fault{i: flt})
+			}
+			// the last write and the last sync before the rename are the interesting ones: always include them
+			lastW, lastS := -1, -1
+			for i, o := range ops {
+				if o.Kind == "rename" {
+					break
+				}
+				if o.Kind == "write" {
+					lastW = i
+				}
+				if o.Kind == "sync" {
+					lastS = i
+				}
+			}
+			if lastW >= 0 {
+				plans = append(plans, map[int]vfs.Fault{lastW: {}})
+			}
+			if lastS >= 0 {
+				plans = append(plans, map[int]vfs.Fault{lastS: {}})
+			}
+		}
+		for pi, pl := range plans {
+			fdir := filepath.Join(dir, fmt.Sprintf("f%d", pi))
+			os.MkdirAll(fdir, 0o755)
+			before.WriteTo(fdir)
+			vfs.Start(fdir, pl)
+			runEntry(fdir, s, expectedAtEntry, len(entries)) // its own verdict is ignored: a reported failure is fine
+			fops, injected := vfs.Stop()
+			if injected == 0 {
+				os.RemoveAll(fdir)
+				continue
+			}
+			faultRuns++
+			fo := -1
+			for i, o := range fops {
+				if o.Failed {
+					fo = i
+					break
+				}
+			}
+			g, cc := loadAll(fdir, s.Cfg)
+			if !sameState(g, expectedAtEntry) {
+				cc.Close()
+				return pbt.Failf("fault-mismatch", "%s with an I/O fault at op %d/%d (%s): afterwards the swamp holds %d keys, want %d: %s",
+					s.Entry, fo, len(fops), opDesc(fops, fo), len(g), len(expectedAtEntry), diffKeys(g, expectedAtEntry))
+			}
+			if len(es) > 0 {
+				cc.Write(toTreasures(es))
+				cc.Close()
+				g2, c5 := loadAll(fdir, s.Cfg)
+				c5.Close()
+				w2 := map[string][]byte{}
+				for kk, v := range expectedAtEntry {
+					w2[kk] = v
+				}
+				for _, e := range es {
+					if e.del {
+						delete(w2, e.key)
+					} else {
+						w2[e.key] = e.content
+					}
+				}
+				if !sameState(g2, w2) {
+					return pbt.Failf("post-write", "%s with an I/O fault at op %d (%s): write+reload afterwards gives %d keys, want %d", s.Entry, fo, opDesc(fops, fo), len(g2), len(w2))
+				}
+			} else {
+				cc.Close()
+			}
+			os.RemoveAll(fdir)
+		}
+	}
+	pbt.Counter("C03", "compaction_fault_runs", faultRuns)
 	pbt.Counter("C03", "compaction_crash_images", images)
 	out := pbt.Outcome{Classes: []string{"entry:" + s.Entry, "temp:" + s.Temp}}
 	if renamed || compactedHint {
@@ -406,11 +488,50 @@ func runC03(s C03Scenario) pbt.Outcome {
 	return out
 }
 
+
+// runEntry executes the scenario's compaction entry point on the swamp file below dir.
+func runEntry(dir string, s C03Scenario, expected map[string][]byte, nEntries int) *pbt.Outcome {
+	file := hydPath(dir)
+	switch s.Entry {
+	case "load-selfheal":
+		got, c2 := loadAll(dir, s.Cfg)
+		c2.Close()
+		if !sameState(got, expected) {
+			o := pbt.Failf("mismatch", "Load (self-heal path) returned %d keys, want %d", len(got), len(expected))
+			return &o
+		}
+	case "force":
+		c2 := newChron(dir, s.Cfg)
+		if err := c2.ForceCompaction(); err != nil {
+			pbt.Counter("C03", "entry_returned_error", 1)
+		}
+		c2.Close()
+	case "compactor-compact":
+		v2.NewCompactor(file, s.Cfg.BlockSize, s.Cfg.Threshold).Compact()
+	case "compactor-force":
+		v2.NewCompactor(file, s.Cfg.BlockSize, s.Cfg.Threshold).ForceCompact()
+	case "compactor-ifneeded":
+		v2.NewCompactor(file, s.Cfg.BlockSize, s.Cfg.Threshold).CompactIfNeeded()
+	case "from-index":
+		r, err := v2.NewFileReader(file)
+		if err == nil {
+			idx, nm, err2 := r.LoadIndex()
+			r.Close()
+			if err2 == nil {
+				v2.CompactFromIndex(file, s.Cfg.BlockSize, nm, idx, nEntries)
+			}
+		}
+	case "cli":
+		hcmd.VerifCompactSwamp(file, s.Cfg.Threshold, false)
+	}
+	return nil
+}
+
 const c03Rule = "histories of 100..420 (one in six: 3..90) writes/deletes over ≤ 8 keys through the chronicler (block sizes 64/1024/16384, thresholds 0.1/0.3/0.5, server construction, " +
 	"V3 or hand-built legacy V2 start) × compaction entry point {inline on Write, on Close, Load self-heal, ForceCompaction, Compactor.Compact/ForceCompact/CompactIfNeeded, " +
 	"CompactFromIndex, CLI compactSwamp} × pre-existing temp file {absent, empty, short, random, valid file with other keys, torn valid}; oracle: live state and name identical " +
 	"before/after, V3 afterwards, write+reload works; plus every crash prefix (and torn writes, and rename-before-unsynced-writes) of the compaction's " +
-	"own file-operation log reloads to exactly the pre-compaction state; non-trivial = compaction ran after a delete, or a leftover temp was present, or crash images were judged"
+	"own file-operation log reloads to exactly the pre-compaction state; plus the entry point re-run with single injected I/O faults (1-3 drawn + the last write and last fsync before the rename; thorough: all) must leave exactly the pre-compaction state; non-trivial = compaction ran after a delete, or a leftover temp was present, or crash images were judged"
 
 func TestC03Main(t *testing.T) {
 	if pbt.Open("C03", "stale-temp-appended") {
